@@ -1020,7 +1020,10 @@ func init() {
 		if b == nil {
 			return x.freshTerm("hexstr", SStr)
 		}
-		return UF("hex_upper", SStr, b)
+		h := UF("hex_upper", SStr, b)
+		// upper-case hex decodes back to the bytes (hex.DecodeString accepts both cases)
+		st.assume(And(Eq(UF("bytes_of_hex", SBytes, h), b), UF("hex_ok", SBool, h)))
+		return h
 	}
 }
 
